@@ -160,6 +160,15 @@ CHECKS = {
             'ledger with load errors.',
             'Trusted: query_render / numberify as called directly (C16, C17 check them); batch mode only.',
             'DESIGN.md section 4, C19'),
+    'C20': ('deterministic scheduler owning the interleaving of real threads (yield points at an impure BQL function, at row iteration and at column look-ups during compilation); Hypothesis-generated and exhaustively enumerated schedules; serial execution as oracle',
+            '2-3 queries (balance referenced 0..3 times, aggregates, IN-subqueries, positional and named parameters, OPEN/'
+            'CLOSE/CLEAR, BALANCES, JOURNAL, harness tables) run in real threads on a shared connection, separate '
+            'connections or separate ledgers; exactly one thread runs at a time and control moves only at harness-placed '
+            'yield points, so a run is a pure function of the schedule; every thread must return what its query returns '
+            'alone. All 2^8 (thorough: 2^12) schedule prefixes are enumerated for seven query pairs; 4000 (thorough 100000) '
+            'random schedules otherwise.',
+            'Trusted: the scheduler (60 lines). Interleavings inside a single byte code of Beancount/CPython are not explored.',
+            'DESIGN.md section 4, C20'),
 }
 
 ALL = [f'C{i:02d}' for i in range(1, 21)]
